@@ -1,4 +1,5 @@
 import HapVerif.Proofs.HttpFeed
+import HapVerif.Gen.Misc
 import HapVerif.Proofs.HttpWriter
 import Mathlib.Data.List.Induction
 
@@ -158,5 +159,11 @@ example : (feed {} exStream).1 =
 
 example : feedAll {} [exStream.take 7, (exStream.drop 7).take 80, exStream.drop 87] = feed {} exStream := by
   decide +kernel
+
+/-- tie to the source (regenerated on every run from `HttpResponse.parse`): the framing headers and the value the
+    parser compares against, and the byte literals it searches for / splits at -/
+theorem C07_gen_tie :
+    Gen.Misc.httpCompared = [("name", "Transfer-Encoding"), ("value", "chunked"), ("name", "Content-Length")] ∧
+    Gen.Misc.httpByteLiterals = ["", "\r\n", " ", ":"] := by decide
 
 end HapVerif.C07
